@@ -177,6 +177,8 @@ func (vc *VCache) getMappedVersionsDist(v dvid.VersionID) distFromRoot {
 // goroutine-safe function for initializing the in-memory mapping with a version's mutations log
 // and caching the mapped versions with the distance from the root.
 func (vc *VCache) loadVersionMapping(ancestors []dvid.VersionID, dataname dvid.InstanceName, ch chan storage.LogMessage, wg *sync.WaitGroup) {
+	// signs off however it returns: its starter waits on the group
+	defer wg.Done()
 	if len(ancestors) == 0 {
 		return
 	}
@@ -272,7 +274,6 @@ func (vc *VCache) loadVersionMapping(ancestors []dvid.VersionID, dataname dvid.I
 	vc.splitsMu.Unlock()
 	timedLog.Infof("Loaded mappings for data %q, version %d", dataname, v)
 	dvid.Infof("Mutations for version %d for data %q: %v\n", v, dataname, numMsgs)
-	wg.Done()
 }
 
 // makes sure that current map has been initialized with all forward mappings up to
